@@ -373,6 +373,11 @@ impl crate::validate::Validate for SimpleGlyph {
         if self.instructions.len() > u16::MAX as usize {
             ctx.report("instructions len overflows");
         }
+        // each contour is stored as the index of its last point, which does
+        // not exist if no point precedes the end of the first contour
+        if matches!(self.contours.first(), Some(contour) if contour.is_empty()) {
+            ctx.report("first contour must contain at least one point");
+        }
     }
 }
 
